@@ -536,7 +536,7 @@ void Exec::run_call(int idx) {
   if (oi.level == 3 && op_selfcheck_errors()) {
     Violation v;
     v.kind = "model-mismatch";
-    v.detail = std::string(oi.name) + ": a module instance returned " + std::to_string(op_selfcheck_errors()) + " wrong coefficient(s) (idft(dft(a)) != a or automorphism != definition)";
+    v.detail = std::string(oi.name) + ": " + std::to_string(op_selfcheck_errors()) + " self-check failure(s) (a module instance returned wrong coefficients, or a transform on a built-in buffer differs from the same transform with a table without buffers)";
     v.call = idx;
     v.op = c.op;
     viol.push_back(v);
@@ -611,6 +611,18 @@ void Exec::run_call(int idx) {
     }
   }
 
+  if (env.use_model && env.model_compare && oi.level == 1 && c.op >= OP_Q120_BAA_REF && c.op <= OP_Q120X2_SAVE) {
+    std::string why = q120_reference_check(P, c, p);
+    n_model_checks++;
+    if (!why.empty()) {
+      Violation v;
+      v.kind = "model-mismatch";
+      v.detail = std::string(oi.name) + ": " + why;
+      v.call = idx;
+      v.op = c.op;
+      viol.push_back(v);
+    }
+  }
   if (env.use_model && oi.level == 0 && oi.nslots > 0) {
     // a value known only up to a tolerance is a leaf: it does not feed further modelled operations
     MVal& mv = model.v[c.s[0]];
